@@ -244,6 +244,15 @@ func vfC16Cfg(name string) vfCfg {
 		c.CIDc, c.CIDs = 4, 6
 
 		return c
+	case "12-cid-oneway-c", "12-cid-oneway-s":
+		// connection IDs in one direction only: one side announces a zero-length ID (it only sends the peer's)
+		c := vfBaseCfg(vfSuiteByName("ECDSA-GCM128"), "ecdsa")
+		c.CIDc, c.CIDs = 0, 5
+		if name == "12-cid-oneway-s" {
+			c.CIDc, c.CIDs = 5, 0
+		}
+
+		return c
 	case "12-psk-cbc":
 		return vfBaseCfg(vfSuiteByName("PSK-CBC"), "")
 	case "13":
@@ -664,6 +673,14 @@ func vfC16Cases() []vfC16Case {
 	var out []vfC16Case
 	idx := 0
 	add := func(c vfC16Case) { c.Idx = idx; idx++; out = append(out, c) }
+	// one-way connection IDs: the closing side's close_notify must be framed for the side that reads it
+	for _, v := range []string{"12-cid-oneway-c", "12-cid-oneway-s"} {
+		for _, actor := range []string{"c", "s"} {
+			for _, a := range []string{"close-1", "both-close", "close-notify-injected"} {
+				add(vfC16Case{Variant: v, Phase: "established", Actor: actor, Action: a})
+			}
+		}
+	}
 	for _, v := range []string{"12-ecdsa", "12-cid", "12-psk-cbc", "13", "13-cid"} {
 		for _, actor := range []string{"c", "s"} {
 			for _, a := range []string{"close-1", "close-3", "close-then-close", "both-close", "fatal-alert-injected",
